@@ -8,20 +8,25 @@ import (
 
 // WriteFileAtomic writes data to a temporary file next to path and renames it into place,
 // so that readers see either the old contents or the new ones, never a partial write.
-func WriteFileAtomic(path string, data []byte, perm os.FileMode) error {
+func WriteFileAtomic(path string, data []byte, perm os.FileMode) (err error) {
 	f, err := os.CreateTemp(filepath.Dir(path), "."+filepath.Base(path)+".tmp-")
 	if err != nil {
 		return fmt.Errorf("couldn't create temporary file: %w", err)
 	}
 	tmpPath := f.Name()
-	defer os.Remove(tmpPath)
+	defer func() {
+		if err != nil {
+			if removeErr := os.Remove(tmpPath); removeErr != nil && !os.IsNotExist(removeErr) {
+				err = fmt.Errorf("%w (additionally, couldn't remove temporary file: %s)", err, removeErr)
+			}
+		}
+	}()
+	defer f.Close()
 
 	if _, err := f.Write(data); err != nil {
-		f.Close()
 		return fmt.Errorf("couldn't write temporary file: %w", err)
 	}
 	if err := f.Sync(); err != nil {
-		f.Close()
 		return fmt.Errorf("couldn't sync temporary file: %w", err)
 	}
 	if err := f.Close(); err != nil {
